@@ -9,7 +9,7 @@
 (*                                                                           *)
 (* Families (constant Fam):                                                  *)
 (*   "rules"  every rule list of length <= MaxRules over the alphabet below  *)
-(*            (Alpha = "full": 30 symbols, "core": 10) x the fixed input     *)
+(*            (Alpha = "full": 30 symbols, "core": 8)  x the fixed input     *)
 (*            inputs Inputs[i], i in InputSel                                *)
 (*   "inputs" every input (files <= MaxFiles, values per file <= MaxVals,    *)
 (*            nsel in NSel, root shapes ShapeSet) x the fixed rule lists     *)
@@ -24,9 +24,9 @@ vars == <<dvars, nsel, cstage>>
 \* ---- rules
 R(k, p, b) == [kind |-> k, haspat |-> p # "none", pat |-> p, body |-> b]
 CoreAlphabet ==
-  {R("B", "none", "print"), R("BF", "none", "print"), R("EF", "none", "print"), R("E", "none", "print"),
+  {R("BF", "none", "print"), R("EF", "none", "print"), R("E", "none", "print"),
    R("P", "none", "print"), R("P", "self", "next"), R("P", "memb", "print"), R("P", "T", "exit"),
-   R("P", "F", "print"), R("P", "self", "bare")}
+   R("P", "self", "bare")}
 FullAlphabet ==
   {R("B", "none", b) : b \in {"print", "exit"}} \cup
   {R(k, "none", b) : k \in {"BF", "EF", "E"}, b \in {"print", "exit", "bare"}} \cup
